@@ -460,15 +460,87 @@ Definition v2_surplus_close (s : state) (app asset lot : Z) : outcome state :=
   | Some f => lift s2 (set_auction_mapping (cs s2) app asset (with_active f false))
   end)).
 
-(* generation-2 CloseEnglishAuction, debt initiator: DebtToken (denom/amount as on the auction
-   record) goes to the collector, net fees of CollateralAssetId grow by CollateralToken.Amount *)
+(* generation-2 CloseEnglishAuction, debt initiator: DebtToken (denom / amount as on the auction
+   record) goes to the collector, net fees of CollateralAssetId grow by DebtToken.Amount (since the
+   fix of C13-F3; before, by CollateralToken.Amount, the amount of the MINTED secondary asset).
+   [coll_amt] = CollateralToken.Amount is what tokenmint mints for the bidder: outside the books *)
 Definition v2_debt_close (s : state) (app asset coll_amt debt_denom debt_amt : Z) : outcome state :=
   obind (lift s (csend (cs s) A_EXT A_COLLECTOR debt_denom debt_amt)) (fun s1 =>
-  obind (lift s1 (set_net_fee (cs s1) app asset coll_amt)) (fun s2 =>
+  obind (lift s1 (set_net_fee (cs s1) app asset debt_amt)) (fun s2 =>
   match amp (cs s2) (app, asset) with
   | None => Err 16
   | Some f => lift s2 (set_auction_mapping (cs s2) app asset (with_active f false))
   end)).
+
+(* auctionsV2 TriggerEsm (AuctionIterator, app under ESM, dutch auction of a vault past its end
+   time): [collected] = TargetDebt - DebtToken (what the bidders paid so far, held by the auction
+   module), [fee] = LockedVault.FeeToBeCollected.  The penalty share min(collected, fee) goes to the
+   collector in the debt denom and is booked under DebtAssetId; the rest is burnt (outside). *)
+Definition v2_trigger_esm (s : state) (app debt_asset collected fee : Z) : outcome state :=
+  if collected <? 0 then Panic                              (* sdk.Coin.Sub: negative result *)
+  else
+    let xfer := if collected >? fee then fee else collected in
+    if xfer <? 0 then Panic                                 (* sdk.NewCoin(denom, FeeToBeCollected < 0) *)
+    else
+    obind (if xfer >? 0 then lift s (csend (cs s) A_EXT A_COLLECTOR debt_asset xfer) else Ok s) (fun s1 =>
+    lift s1 (set_net_fee (cs s1) app debt_asset xfer)).
+
+(* esm SetUpDebtRedemptionForCollector(app): for every net-fee record of the app, in store order.
+   [l] = (asset id, class) per record as the harness reads them before the call: class 0 = the
+   AssetToAmount record says collateral (skipped); 1 = debt asset with asset record and price;
+   3 = as 1 but no DataAfterCoolOff record (nil Dec .Sub panics); anything else = AssetToAmount /
+   asset / price missing (error).  A zero book entry is skipped before any lookup that can fail.
+   The whole book entry is burnt out of the collector account and taken off the books; when
+   DecreaseNetFeeCollectedData fails the function returns nil WITHOUT setting its done flag. *)
+Fixpoint esm_redeem_loop (c : cstate) (app : Z) (l : list (Z * Z)) : outcome cstate :=
+  match l with
+  | [] => Ok c
+  | (asset, cls) :: r =>
+      match nf c (app, asset) with
+      | None => esm_redeem_loop c app r
+      | Some x =>
+          if (cls =? 0) || (x =? 0) then esm_redeem_loop c app r
+          else if cls =? 3 then Panic
+          else if negb (cls =? 1) then Err 40
+          else match csend c A_COLLECTOR A_EXT asset x with       (* BurnCoins(collectorV1, x) *)
+               | Ok c1 =>
+                   match decrease_net_fee c1 app asset x with
+                   | Ok c2 => esm_redeem_loop c2 app r
+                   | Err _ => Ok c1                                 (* `return nil` *)
+                   | Panic => Panic
+                   end
+               | Err e => Err e
+               | Panic => Panic
+               end
+      end
+  end.
+
+Definition esm_redeem (s : state) (app : Z) (has_status : bool) (l : list (Z * Z)) : outcome state :=
+  if negb has_status then Err 41                              (* GetESMStatus not found *)
+  else lift s (esm_redeem_loop (cs s) app l).
+
+(* collector MsgDeposit -> keeper.Deposit -> Refund (refund.go), in the configuration it was written
+   for (asset 3 = ucmst, app 2): the depositor pays [amt] of asset [d] into the collector, it is
+   booked, then 19 hard-coded owners are paid REFUND_TOTAL ucmst in all out of the collector and
+   net_fee(2, 3) is lowered by REFUND_TOTAL.  [done] = the refund counter is not 0 (env: the
+   counter is read and written by this message only). *)
+Definition INT64_MAX : Z := 9223372036854775807.
+Definition REFUND_TOTAL : Z := 20163520000.
+Definition msg_cdeposit (s : state) (u app d amt : Z) (done : bool) : outcome state :=
+  if amt <=? 0 then Err 20                                     (* ValidateBasic *)
+  else if app =? 0 then Err 20
+  else if done then Err 50
+  else if negb (has_asset (cs s) d) then Err 23                (* GetAssetForDenom *)
+  else if negb (d =? 3) then Err 51
+  else if negb (app =? 2) then Err 51
+  else
+    obind (lift s (csend (cs s) (user u) A_COLLECTOR d amt)) (fun s1 =>
+    obind (lift s1 (set_net_fee (cs s1) app d amt)) (fun s2 =>
+    let b := bnk (cs s2) (A_COLLECTOR, 3) in
+    if b >? INT64_MAX then Panic                               (* macc.Int64() *)
+    else if b <? REFUND_TOTAL then Err 52
+    else obind (lift s2 (csend (cs s2) A_COLLECTOR A_EXT 3 REFUND_TOTAL)) (fun s3 =>
+         lift s3 (decrease_net_fee (cs s3) 2 3 REFUND_TOTAL)))).
 
 (* ------------------------------------------------------------------------------------ *)
 Inductive op :=
@@ -496,7 +568,10 @@ Inductive op :=
 | V2CheckStats (app asset : Z)
 | V2SurplusClose (app asset lot : Z)
 | V2DebtClose (app asset coll_amt debt_denom debt_amt : Z)
-| V2Penalty (app coll_asset debt_asset amt : Z).
+| V2Penalty (app coll_asset debt_asset amt : Z)
+| V2TriggerEsm (app debt_asset collected fee : Z)
+| EsmRedeem (app : Z) (has_status : bool) (l : list (Z * Z))
+| CDeposit (u app d amt : Z) (done : bool).
 
 Definition step (s : state) (o : op) : outcome state :=
   match o with
@@ -525,6 +600,9 @@ Definition step (s : state) (o : op) : outcome state :=
   | V2SurplusClose app asset lot => v2_surplus_close s app asset lot
   | V2DebtClose app asset ca dd da => v2_debt_close s app asset ca dd da
   | V2Penalty app ca da amt => v2_penalty s app ca da amt
+  | V2TriggerEsm app da collected fee => v2_trigger_esm s app da collected fee
+  | EsmRedeem app st l => esm_redeem s app st l
+  | CDeposit u app d amt done => msg_cdeposit s u app d amt done
   end.
 
 (* baseapp / ApplyFuncIfNoError: writes are kept only when the unit returns without error *)
@@ -590,6 +668,11 @@ Definition holds_C13_pay (s : state) (o : op) (s' : state) : bool :=
    credited to the locker; fees / penalties: what was paid in; outflows: what was paid out. *)
 Definition at_key (app asset : Z) (k : key) (v : Z) : Z := if keq k (app, asset) then v else 0.
 
+(* what TriggerEsm hands to the collector: the penalty, capped by what was collected *)
+Definition esm_xfer (collected fee : Z) : Z := if collected >? fee then fee else collected.
+(* the assets whose book entry SetUpDebtRedemptionForCollector burns *)
+Definition esm_has1 (l : list (Z * Z)) (d : Z) : bool := existsb (fun p => (fst p =? d) && (snd p =? 1)) l.
+
 Definition nf_delta_spec (s : state) (o : op) (k : key) : Z :=
   match o with
   | LDeposit u app asset lid amt rw => at_key app asset k (- credited s app asset lid rw)
@@ -609,7 +692,9 @@ Definition nf_delta_spec (s : state) (o : op) (k : key) : Z :=
   | V1SurplusClose app asset lot bidder esm => if bidder && negb esm then 0 else at_key app asset k lot
   | V1DebtClose app asset amt bids esm => if esm then 0 else if bids then at_key app asset k amt else 0
   | V2SurplusClose app asset lot => at_key app asset k lot
-  | V2DebtClose app asset ca dd da => at_key app asset k ca
+  | V2DebtClose app asset ca dd da => at_key app asset k da
+  | V2TriggerEsm app da collected fee => at_key app da k (esm_xfer collected fee)
+  | CDeposit u app d amt done => at_key app d k (amt - REFUND_TOTAL)
   | _ => 0   (* Create, lookup / whitelist / flag / esm ops: no change; starts: see [start_delta] *)
   end.
 
@@ -631,6 +716,9 @@ Definition holds_C13_delta (keys : list key) (s : state) (o : op) (s' : state) :
     | UpdLookup app asset lsr sthr dthr lot dlot rws =>
         (* savings-rate change: net fees of (app, asset) fall by exactly what the lockers were credited *)
         d =? at_key app asset k (- (net_sum (lockers_of s' app asset) - net_sum (lockers_of s app asset)))
+    | EsmRedeem app st l =>
+        (* emergency shutdown: every debt-asset entry of the app that the call reaches is taken off the books whole *)
+        d =? (if (fst k =? app) && esm_has1 l (snd k) then - nf_val (cs s) (fst k) (snd k) else 0)
     | _ => d =? nf_delta_spec s o k
     end) keys.
 
@@ -642,8 +730,8 @@ Definition holds_C13_flow (apps assets : list Z) (s : state) (o : op) (s' : stat
     let dn := nf_total (cs s') apps d - nf_total (cs s) apps d in
     match o with
     | DecNetFee _ _ _ => dn <=? db
-    | UpdLookup _ _ _ _ _ _ _ _ => dn <=? db      (* a failed transfer inside the loop is skipped after the books were lowered *)
-    | _ => db =? dn
+    | _ => db =? dn       (* incl. the savings-rate change: a transfer that fails after the books were lowered
+                             (collector.LockerIterateRewards `continue`) breaks the clause *)
     end) assets.
 
 (* ---- known-finding classes (DESIGN.md section 5) ---- *)
@@ -653,12 +741,10 @@ Definition holds_C13_flow (apps assets : list Z) (s : state) (o : op) (s' : stat
    close takes it from the collector again and re-credits the net fees *)
 Definition kf_C13_2 (o : op) : bool :=
   match o with V2SurplusClose app asset lot => lot >? 0 | _ => false end.
-(* C13-F3: generation-2 debt auction close books CollateralToken.Amount (the minted secondary
-   amount) as net fees of the collector asset while DebtToken is what arrives *)
-Definition kf_C13_3 (o : op) : bool :=
-  match o with V2DebtClose app asset ca dd da => negb ((dd =? asset) && (ca =? da)) | _ => false end.
+(* C13-F3 (generation-2 debt auction close booked CollateralToken.Amount, the minted secondary
+   amount, while DebtToken is what arrives) is repaired: its class kf_C13_3 is gone *)
 
-Definition kf_C13_any (o : op) : bool := kf_C13_2 o || kf_C13_3 o.
+Definition kf_C13_any (o : op) : bool := kf_C13_2 o.
 
 (* ------------------------------------------------------------------------------------ *)
 (* Hypotheses of the property theorems (Properties/C13.v), executable.                   *)
@@ -673,6 +759,10 @@ Definition valid_op (o : op) : bool :=
   | LClose u _ _ _ _ => 0 <=? u
   | SurplusFund app asset u denom amt => (0 <=? u) && (denom =? asset)
   | DecNetFee _ _ amt => 0 <=? amt
+  | CDeposit u _ _ _ _ => 0 <=? u
+  (* the debt auction's DebtToken is minted by CheckStatsForSurplusAndDebt in the denom of
+     collector.CollectorAssetId, which is also the auction's CollateralAssetId (liquidate.go) *)
+  | V2DebtClose _ asset _ dd _ => dd =? asset
   | _ => true
   end.
 
@@ -691,6 +781,9 @@ Definition op_key (s : state) (o : op) : option key :=
   | V1SurplusStart app asset | V1SurplusClose app asset _ _ _ | V1DebtStart app asset | V1DebtClose app asset _ _ _
   | V1Penalty app asset _ | V2CheckStats app asset | V2SurplusClose app asset _ | V2DebtClose app asset _ _ _ => Some (app, asset)
   | V2Penalty app _ da _ => Some (app, da)
+  | V2TriggerEsm app da _ _ => Some (app, da)
+  | CDeposit _ app d _ _ => Some (app, d)
+  | EsmRedeem app _ _ => Some (app, 0)
   | _ => None
   end.
 
@@ -731,6 +824,8 @@ Definition coin_delta_of (s s' : state) (o : op) : Z * Z :=     (* (denom, chang
   | V1DebtClose app asset amt bids esm => (asset, if esm then 0 else if bids then amt else 0)
   | V2SurplusClose app asset lot => (asset, - lot)
   | V2DebtClose app asset ca dd da => (dd, da)
+  | V2TriggerEsm app da collected fee => (da, esm_xfer collected fee)
+  | CDeposit u app d amt done => (d, amt - REFUND_TOTAL)
   | V1SurplusStart app asset => (asset, if started s s' app asset then - lot_of s app asset else 0)
   | V2CheckStats app asset =>
       (asset, if started s s' app asset && af_surplus (flags_of s app asset) then - lot_of s app asset else 0)
@@ -738,3 +833,6 @@ Definition coin_delta_of (s s' : state) (o : op) : Z * Z :=     (* (denom, chang
   end.
 
 Definition is_upd_lookup (o : op) : bool := match o with UpdLookup _ _ _ _ _ _ _ _ => true | _ => false end.
+Definition is_esm_redeem (o : op) : bool := match o with EsmRedeem _ _ _ => true | _ => false end.
+(* ops that touch several lockers / several book entries and are described by their own theorems *)
+Definition is_multi (o : op) : bool := is_upd_lookup o || is_esm_redeem o.
